@@ -143,6 +143,17 @@ func routeGen(kind string, sequential bool) func(r *rand.Rand, tier string) []sp
 					}
 				}
 			}
+			if kind == "grpcmux" && (i%8 == 0 || i%8 == 6) && len(p.Items) > 6 {
+				// one establishment dialled first with a short per-attempt connect timeout and accepted 1 s
+				// later (the attempts before the accept time out mid-knock); what follows must be unaffected
+				dir := []string{"host", "plugin"}[(i/8)%2]
+				for j := range p.Items {
+					if j >= 2 && !p.Items[j].Redial && p.Items[j].Dir == dir && p.Items[j].SlowMs == 0 && !p.Items[j].WaitReady {
+						p.Items[j].ShortConnect, p.Items[j].AcceptFirst, p.Items[j].GapMs = true, false, 1000
+						break
+					}
+				}
+			}
 			if kind == "grpcmux" && i%8 == 2 {
 				// listeners that are closed and whose id is accepted again at once, many times over, on both
 				// sides: the new listener must get the next connection dialled for the id
@@ -322,6 +333,9 @@ func routeJudge(prop string) func(c spec.Case, evs []spec.Event, d *Death) CaseR
 			res.Counters["pairs"]++
 			if it.Reaccept {
 				res.Counters["reaccepts"]++
+			}
+			if it.ShortConnect {
+				res.Counters["short_connect_timeout_dials"]++
 			}
 			if it.StaleDial {
 				res.Counters["pairs_after_a_timed_out_dial"]++
